@@ -44,10 +44,26 @@ def run(eng: Engine, ck: Check):
     allowed = {(e['from'], e['op'], e['to']) for e in pinned['edges']}
     ck.floor('R-C03-GRAPH.states', len(states), 10)
 
+    # class-level aliases (`fail = TransferState._fail_idle`): the lock wrapper re-dispatches a request that waited for the lock with
+    # getattr(type(current_state), func.__name__); an operation installed under a name that differs from the function's own name is
+    # re-dispatched to the wrong method (the shared helper exists on EVERY state, also on those that must refuse)
+    alias_methods: dict[tuple[str, str], FuncInfo] = {}
+    for ci in [base] + list(states.values()):
+        for st in ci.node.body:
+            if isinstance(st, ast.Assign) and len(st.targets) == 1 and isinstance(st.targets[0], ast.Name) and isinstance(st.value, (ast.Attribute, ast.Name)):
+                nm = st.targets[0].id
+                ref = st.value.attr if isinstance(st.value, ast.Attribute) else st.value.id
+                target = next((c.methods[ref] for c in repo.mro(ci) if ref in c.methods), None)
+                if target is None:
+                    continue
+                alias_methods[(ci.name, nm)] = target
+                ck.ob('R-C03-DISPATCH', ci, st, f'{ci.name}.{nm} is defined under its own name (the wrapper re-dispatches by func.__name__)', ref == nm,
+                      f'`{unparse(st)}`: the function is called `{ref}`; a `{nm}()` that waited for the lock while the transfer left this state is re-dispatched to '
+                      f'`{ref}` of the new state — which exists on every state and does not refuse', construct=f'{ci.name}.{nm} alias name')
     # ---- R-C03-GRAPH: extracted transition relation is a subset of the documented graph
     extracted = set()
     for val, ci in states.items():
-        for name, m in ci.methods.items():
+        for name, m in list(ci.methods.items()) + [(nm_, t_) for (cn_, nm_), t_ in alias_methods.items() if cn_ == ci.name]:
             if name.startswith('_'):
                 continue
             ck.visited(m)
@@ -143,7 +159,20 @@ def run(eng: Engine, ck: Check):
             for tn in tnodes:
                 after = [s for s in c.reach_from([tn], edge_ok=lambda a, b, lab: lab == 'next')
                          if s is not tn and s.kind == 'stmt' and not isinstance(s.ast, ast.Return)]
-                ck.ob('R-C03-LAST-EFFECT', m, tn.ast, f'{ci.name}.{name}: the transition is the last effect (listeners see the final fields)',
+                # removing the local artefact may follow the transition (it suspends; doing it before would leave the transfer in a
+                # schedulable state without tasks, see R-C06-CANCEL-ALL): allowed iff the helper touches nothing but local_path
+                def cleanup_only(st_node) -> bool:
+                    xs = [x for x in calls_in(st_node) if call_name(x) == '_remove_local_file']
+                    if len(xs) != 1 or not isinstance(st_node, ast.Expr):
+                        return False
+                    rlf_ = eng.func(TSTATE, '_remove_local_file')
+                    written = {t.attr for n_ in walk_local(rlf_.node) if isinstance(n_, (ast.Assign, ast.AugAssign))
+                               for t in (n_.targets if isinstance(n_, ast.Assign) else [n_.target]) if isinstance(t, ast.Attribute)}
+                    calls_state = any(mentions_attr(x.func, 'state') or call_name(x) == 'transition' for x in calls_in(rlf_.node))
+                    return written <= {'local_path'} and not calls_state
+                after = [s for s in after if not cleanup_only(s.ast)]
+                ck.ob('R-C03-LAST-EFFECT', m, tn.ast, f'{ci.name}.{name}: the transition is the last effect on the fields that describe the state '
+                      '(listeners see the final state, reasons and timestamps; only the removal of the local file may follow)',
                       not after, f'statements after the transition: {[unparse(a.ast)[:40] for a in after]}',
                       construct=f'{val}.{name} last effect')
 
